@@ -123,7 +123,7 @@ def check_case(run, case):
             # ---- base draw
             for u, ok, kind in probes(base_regs):
                 item = walk([u] + [0.5] * 12)
-                run.ev('probes')
+                run.ev('probes'); run.evals += 1
                 labs = [x[0] for x in item['pt']]
                 cands = [lang.base[i][1] for i in ok]
                 if labs not in cands:
@@ -143,7 +143,7 @@ def check_case(run, case):
                         floats = [ub] + [mid(pregs[q], 0) for q in range(len(labs))]
                         floats[1 + j] = u
                         item = walk(floats)
-                        run.ev('probes')
+                        run.ev('probes'); run.evals += 1
                         got = [x for x in item['pt']]
                         if [x[0] for x in got] != labs:
                             run.violation(f'walk for base {s}: structure changed to {[x[0] for x in got]}', case); return
@@ -203,7 +203,7 @@ def check_case(run, case):
                 if a[0] != b[0] or a[0].count(b'\n') != 30:
                     run.violation(f'two random_walk runs differ or did not write 30 lines ({a[0].count(10)} / {b[0].count(10)})', case,
                                   observed=[a[0][:80].decode('utf-8', 'replace'), b[0][:80].decode('utf-8', 'replace')]); return
-        run.case()
+        run.ev('rulesets')
         run.sample({'kind': case['kind'], 'base': [(b[3], b[2]) for b in lang.base][:4], 'flags': case['flags'], 'base_regions': [[float(lo), float(hi)] for lo, hi in base_regs][:4]})
     finally:
         session.drop_session(sn)
